@@ -6,10 +6,14 @@ mod app;
 mod cases;
 mod mux;
 mod obs;
+mod quiet;
 mod suites;
 mod tobs;
 mod util;
 use std::io::{BufRead, Write};
+
+#[global_allocator]
+static GLOBAL: quiet::Counting = quiet::Counting;
 
 fn main() {
     let a: Vec<String> = std::env::args().collect();
@@ -22,6 +26,7 @@ fn main() {
             match suite {
                 "C12" => suites::c12::gen(tier, seed, &mut emit),
                 "C15" => suites::c15::gen(tier, seed, &mut emit),
+                "C19" => suites::c19::gen(tier, seed, &mut emit),
                 "C01" => suites::c01::gen(tier, seed, &mut emit),
                 "C02" => suites::c02::gen(tier, seed, &mut emit),
                 "C03" => suites::c03::gen(tier, seed, &mut emit),
